@@ -58,7 +58,11 @@ def lint_file(
 ) -> None:
     # pylint: disable=missing-function-docstring
     project = obj.project
-    subset_files = {Path(file_) for file_ in files}
+    # A symbolic link is not a covered file, and what it points to was not
+    # asked about.
+    subset_files = {
+        Path(file_) for file_ in files if not Path(file_).is_symlink()
+    }
     for file_ in subset_files:
         if not file_.resolve().is_relative_to(project.root.resolve()):
             raise click.UsageError(
